@@ -259,7 +259,7 @@ void h_bmod1D_mv2(void) {
   if (in_w >= 2 && BLAS(0) && BLAS(1) && KFNZ(0) < KFNZ(1) && in_nrow >= 1) __CPROVER_assert(0, "canary: pair, first segment longer");
   if (in_w >= 2 && BLAS(0) && BLAS(1) && KFNZ(0) > KFNZ(1) && in_nrow >= 1) __CPROVER_assert(0, "canary: pair, second segment longer");
   if (in_w >= 2 && BLAS(0) && BLAS(1) && KFNZ(0) == KFNZ(1) && in_nrow >= 1) __CPROVER_assert(0, "canary: pair, equal segments (matvec2 only)");
-  if (BLAS(0) && in_m == M && in_w == W && in_nsupr == in_m && SNODE_END == LUC && g_lptr + in_nsupr == LC && btot == 2) __CPROVER_assert(0, "canary: lusup, both tempv slots, dense, lsub exactly filled");
+  if (BLAS(0) && in_w == W && in_nsupr == in_m && SNODE_END == LUC && g_lptr + in_nsupr == LC && btot == 2) __CPROVER_assert(0, "canary: pair with nsupr = m, lusup and lsub filled to the end");
 #if !ONLYBLAS
   if (in_w >= 2 && ACTIVE(0) && SEGSZE(0) == 1 && ACTIVE(1) && SEGSZE(1) == 3 && in_nrow >= 2) __CPROVER_assert(0, "canary: unrolled cases 1 and 3");
   if (in_w >= 2 && !ACTIVE(0) && ACTIVE(1) && SEGSZE(1) == 2 && in_nrow >= 1) __CPROVER_assert(0, "canary: empty segment and unrolled case 2");
